@@ -43,6 +43,12 @@ def fmt(sig):
 
 
 def run(ctx):
+    from .iterables import single_pass_iterables as _single_pass
+    _single_pass(ctx, 'C09.R4', ('Recipe.get_substance_used',))
+    # per-well amounts gathered with numpy.vectorize need an explicit result type: without it the type of the first
+    # well decides, and an empty first well (int 0) truncates every later amount to whole storage units
+    from .c15 import t5 as _vectorize_dtype
+    _vectorize_dtype(ctx, 'C09.R4', only=('Recipe.get_substance_used', 'Recipe.bake'), dtype_only=True)
     # contents are keyed by Substance objects: the key laws this property's bookkeeping relies on
     from .identity import identity_discipline as _identity
     _identity(ctx, 'C09.R1', classes=('Substance',), memoised=False)
@@ -280,7 +286,8 @@ def _path_counts(stmts, pred):
                 of, od = _path_counts(s.orelse, pred)
             nf, nd = bf | of, bd | od
         elif isinstance(s, (ast.For, ast.While)):
-            k = 0
+            head = s.iter if isinstance(s, ast.For) else s.test
+            k = sum(1 for n in ast.walk(head) if pred(n))
             bf, bd = _path_counts(s.body, pred)
             nf, nd = {0} | bf | bd, set()      # continue / break / return inside an inner loop: counted as leaving it
         elif isinstance(s, (ast.With, ast.Try)):
